@@ -82,6 +82,16 @@ func initAuthnSession(
 		return nil, err
 	}
 
+	// Access tokens issued by the authorization endpoint can only be bound with
+	// DPoP, to the key used during PAR or the one informed with dpop_jkt. If
+	// binding is required and the token would not be bound, refuse the request.
+	if session.ResponseType.Contains(goidc.ResponseTypeToken) &&
+		(ctx.DPoPIsRequired || (ctx.DPoPIsEnabled && client.DPoPTokenBindingIsRequired) || ctx.TokenBindingIsRequired) &&
+		!(ctx.DPoPIsEnabled && (session.JWKThumbprint != "" || session.DPoPJKT != "")) {
+		return nil, newRedirectionError(goidc.ErrorCodeInvalidRequest,
+			"the access token must be bound with dpop", session.AuthorizationParameters)
+	}
+
 	policy, ok := ctx.AvailablePolicy(client, session)
 	if !ok {
 		return nil, newRedirectionError(goidc.ErrorCodeInvalidRequest,
